@@ -1,5 +1,9 @@
 import Driver.Common
-/-! Driver of the `emitter` family (stub: no stream yet). -/
+import Driver.Emitter
+/-! Driver of the `emitter` family. -/
 
 def main (args : List String) : IO UInt32 :=
-  Drv.mainWith [] args
+  Drv.mainWith [
+    ("parents", Drv.Parents.stream),
+    ("qindex", Drv.Qindex.stream)
+  ] args
